@@ -25,7 +25,7 @@ ASSUMPTIONS = [
 ]
 TECHNIQUE = "reference-model + intrinsic runtime monitors (count/base identity, bounds, sums)"
 DESIGN_REF = "DESIGN.md 4 C03"
-WEIGHTS = ["none", "frac", "zeros", "float"]
+WEIGHTS = ["none", "frac", "zeros", "float", "scales", "tiny"]
 INS = ["none", "sum", "diff"]
 REQUIRED_REACH = [
     "prop_vs_oracle", "percent_is_100x", "bounded", "nan_iff_zero_base", "sum_to_one",
